@@ -343,8 +343,28 @@ pub fn spec_source_packets(data: &[u8], f: u64, t: u16, z: u8, n: u16, al: u8) -
 pub fn object(rec: &mut Recorder, rng: &mut Rng, thorough: bool) {
     let n = if thorough { 500 } else { 70 };
     for it in 0..n {
-        let (f, t, z, nn, al) = pick_object(rng, if it % 10 == 9 { 6000 } else { 1500 });
-        let data = rng.bytes(f as usize);
+        let (mut f, mut t, mut z, mut nn, mut al) = pick_object(rng, if it % 10 == 9 { 6000 } else { 1500 });
+        // directed: the small blocks hold exactly a Table-2 size (KS = K' of one row) and the large ones one symbol
+        // more (the next row): neighbouring blocks of one object then need different plans
+        if it % 4 == 3 {
+            let ks = *rng.pick(&[10u64, 12, 18, 20, 26, 30, 32, 36, 42, 46, 48, 49, 55, 60, 62, 69, 75, 84, 88, 91, 95, 97, 101]);
+            z = rng.range(2, 5) as u8;
+            let kt = z as u64 * ks + rng.range(1, z as u64 - 1);
+            al = *rng.pick(&[1u8, 2, 4]);
+            t = al as u16 * rng.range(1, 3) as u16;
+            nn = 1;
+            f = kt * t as u64 - rng.below(t as u64);
+            rec.count("object_ks_is_table_row");
+        }
+        // data: random, or with equal consecutive blocks (all zero, constant, periodic in the block length)
+        let mut data = rng.bytes(f as usize);
+        match rng.below(6) {
+            0 => { for b in data.iter_mut() { *b = 0; } rec.count("object_equal_blocks"); }
+            1 => { let c = rng.below(256) as u8; for b in data.iter_mut() { *b = c; } rec.count("object_equal_blocks"); }
+            2 => { let kt = (f + t as u64 - 1) / t as u64; let kl = ((kt + z as u64 - 1) / z as u64 * t as u64) as usize;
+                   if kl > 0 { for i in kl..data.len() { data[i] = data[i - kl]; } } rec.count("object_equal_blocks"); }
+            _ => {}
+        }
         let r = rng.below(3) as u32;
         let d2 = data.clone();
         let res = guarded(move || {
@@ -375,7 +395,7 @@ pub fn object(rec: &mut Recorder, rng: &mut Rng, thorough: bool) {
                 ids.sort();
                 ids.dedup();
                 if ids.len() != total || total != spec.len() + z as usize * r as usize {
-                    rec.impl_violation(format!("packet ids not distinct / wrong count for F={f} T={t} Z={z} N={nn} Al={al} r={r}"));
+                    rec.impl_violation(format!("packet ids not distinct / wrong count for F={f} T={t} Z={z} N={nn} Al={al} r={r} (data starts {})", hex(&data[..data.len().min(24)])));
                 }
                 let full = it < 10;
                 rec.put(
@@ -457,44 +477,146 @@ pub fn decblk(rec: &mut Recorder, rng: &mut Rng, thorough: bool) {
         let mut batches: Vec<Vec<EncodingPacket>> = vec![pk[..pk.len() - tail].to_vec()];
         for p in &pk[pk.len() - tail..] { batches.push(vec![p.clone()]); }
         if it % 5 == 0 { batches.push(vec![pk[0].clone()]); batches.push(vec![]); }
-        let sparse = it % 2 == 0;
-        let b2 = batches.clone();
-        let r = guarded(move || {
-            let mut dec = SourceBlockDecoder::new(0, &cfg, k as u64 * t as u64);
-            dec.set_sparse_threshold(if sparse { 0 } else { 1 << 30 });
-            b2.into_iter().map(|b| dec.decode(b)).collect::<Vec<_>>()
-        });
-        let req = format!(
-            "decblk {k} {t} {nn} {al} {}",
-            batches.iter().map(|b| if b.is_empty() { "-".to_string() } else { b.iter().map(|p| format!("{}:{}", p.payload_id().encoding_symbol_id(), hex(p.data()))).collect::<Vec<_>>().join(",") }).collect::<Vec<_>>().join("/")
-        );
-        match r {
-            Ok(outs) => {
-                // property oracle (C01): every answer is None or exactly the data; monotone afterwards
-                let mut seen = false;
-                for o in &outs {
-                    match o {
-                        Some(b) if *b != data => rec.impl_violation(format!("block decoder returned wrong bytes K={k} T={t} N={nn} Al={al} sparse={sparse}")),
-                        Some(_) => seen = true,
-                        None if seen => rec.impl_violation(format!("block decoder answered None after Some K={k} T={t} sparse={sparse}")),
-                        None => {}
-                    }
-                }
-                rec.count(if outs.last().map_or(false, |o| o.is_some()) { "decblk_final_some" } else { "decblk_final_none" });
-                rec.count(&format!("decblk_overhead_{}", h.min(3)));
-                rec.put(&req, &outs.iter().map(res_str).collect::<Vec<_>>().join(" "));
-                rec.put(&req.replacen("decblk ", &format!("decblkpi {} ", if sparse { "sparse" } else { "dense" }), 1), &outs.iter().map(res_str).collect::<Vec<_>>().join(" "));
-                if k <= 120 {
-                    // … and with every solver run of the model certified (left-inverse replay / verified oracle)
-                    rec.put(&req.replacen("decblk ", &format!("decblkpi {}ck ", if sparse { "sparse" } else { "dense" }), 1), &outs.iter().map(res_str).collect::<Vec<_>>().join(" "));
+        run_block_history(rec, k, t, nn, al, cfg, &data, batches, it % 2 == 0, h);
+        rec.count(if big { "decblk_big" } else { "decblk" });
+    }
+}
+
+
+// one history of one block decoder: the implementation's answers, the C01 oracle, and the three model requests
+fn run_block_history(rec: &mut Recorder, k: u32, t: u16, nn: u16, al: u8, cfg: Oti, data: &[u8], batches: Vec<Vec<EncodingPacket>>, sparse: bool, h: usize) {
+    let data = data.to_vec();
+    let b2 = batches.clone();
+    let r = guarded(move || {
+        let mut dec = SourceBlockDecoder::new(0, &cfg, k as u64 * t as u64);
+        dec.set_sparse_threshold(if sparse { 0 } else { 1 << 30 });
+        b2.into_iter().map(|b| dec.decode(b)).collect::<Vec<_>>()
+    });
+    let req = format!(
+        "decblk {k} {t} {nn} {al} {}",
+        batches.iter().map(|b| if b.is_empty() { "-".to_string() } else { b.iter().map(|p| format!("{}:{}", p.payload_id().encoding_symbol_id(), hex(p.data()))).collect::<Vec<_>>().join(",") }).collect::<Vec<_>>().join("/")
+    );
+    match r {
+        Ok(outs) => {
+            // property oracle (C01): every answer is None or exactly the data; monotone afterwards
+            let mut seen = false;
+            for o in &outs {
+                match o {
+                    Some(b) if *b != data => rec.impl_violation(format!("block decoder returned wrong bytes K={k} T={t} N={nn} Al={al} sparse={sparse}")),
+                    Some(_) => seen = true,
+                    None if seen => rec.impl_violation(format!("block decoder answered None after Some K={k} T={t} sparse={sparse}")),
+                    None => {}
                 }
             }
-            Err(_) => {
-                rec.impl_violation(format!("block decoder panics on genuine packets K={k} T={t} N={nn} Al={al} sparse={sparse}"));
-                rec.put(&req, "err");
+            rec.count(if outs.last().map_or(false, |o| o.is_some()) { "decblk_final_some" } else { "decblk_final_none" });
+            rec.count(&format!("decblk_overhead_{}", h.min(3)));
+            rec.put(&req, &outs.iter().map(res_str).collect::<Vec<_>>().join(" "));
+            rec.put(&req.replacen("decblk ", &format!("decblkpi {} ", if sparse { "sparse" } else { "dense" }), 1), &outs.iter().map(res_str).collect::<Vec<_>>().join(" "));
+            if k <= 120 {
+                // … and with every solver run of the model certified (left-inverse replay / verified oracle)
+                rec.put(&req.replacen("decblk ", &format!("decblkpi {}ck ", if sparse { "sparse" } else { "dense" }), 1), &outs.iter().map(res_str).collect::<Vec<_>>().join(" "));
             }
         }
-        rec.count(if big { "decblk_big" } else { "decblk" });
+        Err(_) => {
+            rec.impl_violation(format!("block decoder panics on genuine packets K={k} T={t} N={nn} Al={al} sparse={sparse}"));
+            rec.put(&req, "err");
+        }
+    }
+}
+
+
+// groups of repair ESIs (K = K') whose rows in the constraint matrix are identical: degree-1 symbols, grouped by
+// their column set; cached per K
+pub fn identical_row_groups(k: u32, upto: u32) -> Vec<Vec<u32>> {
+    let (w, j, p1) = (rq::num_lt_symbols(k), rq::systematic_index(k), rq::calculate_p1(k));
+    let p = k + rq::num_ldpc_symbols(k) + rq::num_hdpc_symbols(k) - w;
+    let mut groups: std::collections::HashMap<Vec<usize>, Vec<u32>> = std::collections::HashMap::new();
+    for isi in k..upto {
+        let t = rq::intermediate_tuple(isi, w, j, p1);
+        if t.0 != 1 { continue; }
+        let mut v = vec![];
+        rq::enc_indices(t, w, p, p1, |c| v.push(c));
+        v.sort();
+        groups.entry(v).or_default().push(isi);
+    }
+    let mut g: Vec<Vec<u32>> = groups.into_values().filter(|g| g.len() >= 2).collect();
+    g.sort_by(|a, b| b.len().cmp(&a.len()).then(a.cmp(b)));
+    g
+}
+
+// directed histories of the block decoder (C01 C02 C03 C05 C08): the situations random receptions do not produce
+pub fn decblk_directed(rec: &mut Recorder, rng: &mut Rng, thorough: bool) {
+    // (a) everything in ONE call, with at least H symbols more than K and sub-blocks: the binary-only path has to
+    //     rebuild several missing source symbols and lay them out sub-block by sub-block
+    for it in 0..(if thorough { 200 } else { 24 }) {
+        let k = pick_k(rng, 60);
+        let (t, nn, al) = { let mut x = pick_tnal(rng, 32); for _ in 0..30 { if x.1 > 1 { break; } x = pick_tnal(rng, 32); } x };
+        let hh = rq::num_hdpc_symbols(k) as usize;
+        let data = rng.bytes(k as usize * t as usize);
+        let cfg = cfg_for(k, t, nn, al);
+        let enc = SourceBlockEncoder::new(0, &cfg, &data);
+        let src = enc.source_packets();
+        let lost = rng.range(2, 4.min(k as u64).max(2)) as usize;
+        let lost = lost.min(k as usize);
+        let mut idx: Vec<usize> = (0..k as usize).collect();
+        rng.shuffle(&mut idx);
+        let mut pk: Vec<EncodingPacket> = idx[lost..].iter().map(|i| src[*i].clone()).collect();
+        let h = hh + 2 + rng.below(6) as usize;
+        let mut esis = std::collections::BTreeSet::new();
+        while esis.len() < lost + h { esis.insert(pick_repair_esi(rng, k)); }
+        for e in &esis { pk.push(enc.repair_packets(e - k, 1).remove(0)); }
+        rng.shuffle(&mut pk);
+        let mut batches = vec![pk.clone()];
+        if it % 2 == 0 { batches.push(vec![pk[0].clone()]); }
+        rec.count(if nn > 1 { "directed_one_call_subblocks" } else { "directed_one_call" });
+        run_block_history(rec, k, t, nn, al, cfg, &data, batches, it % 2 == 0, h);
+    }
+    // (b) a first attempt that must fail (the K received symbols contain two with identical rows), after which the
+    //     missing SOURCE symbols arrive one by one: the decoder has to answer as soon as the set determines the block
+    // (c) a flood of identical-row repair symbols first (rank deficient however many arrive), useful symbols afterwards
+    for &k in &[10u32, 12] {
+        let groups = identical_row_groups(k, if thorough { 1 << 24 } else { 1 << 23 });
+        if groups.is_empty() { continue; }
+        for it in 0..(if thorough { 60 } else { 8 }) {
+            let t = rng.range(1, 4) as u16;
+            let data = rng.bytes(k as usize * t as usize);
+            let cfg = cfg_for(k, t, 1, 1);
+            let enc = SourceBlockEncoder::new(0, &cfg, &data);
+            let src = enc.source_packets();
+            let g = &groups[rng.below(groups.len().min(40) as u64) as usize];
+            let lost = rng.range(2, 4) as usize;
+            let mut idx: Vec<usize> = (0..k as usize).collect();
+            rng.shuffle(&mut idx);
+            let mut first: Vec<EncodingPacket> = idx[lost..].iter().map(|i| src[*i].clone()).collect();
+            let mut esis = std::collections::BTreeSet::new();
+            esis.insert(g[0]); esis.insert(g[1]);
+            while esis.len() < lost { esis.insert(pick_repair_esi(rng, k)); }
+            for e in &esis { first.push(enc.repair_packets(e - k, 1).remove(0)); }
+            rng.shuffle(&mut first);
+            let mut batches = vec![first];
+            for i in &idx[..lost] { batches.push(vec![src[*i].clone()]); }
+            rec.count("directed_failed_attempt_then_source_symbols");
+            run_block_history(rec, k, t, 1, 1, cfg, &data, batches, it % 2 == 0, 0);
+        }
+        let big = &groups[0];
+        let l = (k + rq::num_ldpc_symbols(k) + rq::num_hdpc_symbols(k)) as usize;
+        for it in 0..(if thorough { 12 } else { 2 }) {
+            if big.len() < l + 2 { rec.count("directed_flood_group_too_small"); break; }
+            let t = 1u16;
+            let data = rng.bytes(k as usize * t as usize);
+            let cfg = cfg_for(k, t, 1, 1);
+            let enc = SourceBlockEncoder::new(0, &cfg, &data);
+            let mut batches: Vec<Vec<EncodingPacket>> = vec![];
+            // the flood, first K of them in one call, the rest one by one
+            let flood: Vec<EncodingPacket> = big.iter().take(l + 2).map(|e| enc.repair_packets(e - k, 1).remove(0)).collect();
+            batches.push(flood[..k as usize].to_vec());
+            for p in &flood[k as usize..] { batches.push(vec![p.clone()]); }
+            let mut esis = std::collections::BTreeSet::new();
+            while esis.len() < k as usize + 4 { esis.insert(pick_repair_esi(rng, k)); }
+            for e in &esis { batches.push(vec![enc.repair_packets(e - k, 1).remove(0)]); }
+            rec.count("directed_identical_row_flood");
+            run_block_history(rec, k, t, 1, 1, cfg, &data, batches, it % 2 == 0, 3);
+        }
     }
 }
 
@@ -781,6 +903,53 @@ pub fn linear(rec: &mut Recorder, rng: &mut Rng, thorough: bool) {
     }
 }
 
+// wide symbols (up to the 65535-byte maximum, odd sizes, Al = 1): column independence and decoding, oracle only
+pub fn linear_wide(rec: &mut Recorder, rng: &mut Rng, thorough: bool) {
+    let mut ts: Vec<u16> = vec![32767, 32769, 65535, 40001, 16385, 4099, 8191];
+    if thorough { ts.extend([65533u16, 49153, 32771, 24577, 12289, 33333]); }
+    for t in ts {
+        let k = rng.range(4, 9) as u32;
+        let tt = t as usize;
+        let a = rng.bytes(k as usize * tt);
+        let lost: Vec<u32> = { let mut v: Vec<u32> = (0..k).collect(); rng.shuffle(&mut v); v.truncate(rng.range(1, 3) as usize); v };
+        let cols: Vec<usize> = vec![0, tt - 1, tt - 2, tt / 2, rng.below(t as u64) as usize];
+        let (a2, l2) = (a.clone(), lost.clone());
+        let r = guarded(move || {
+            let cfg = cfg_for(k, t, 1, 1);
+            let enc = SourceBlockEncoder::new(0, &cfg, &a2);
+            let reps = enc.repair_packets(0, 4);
+            let mut bad = vec![];
+            let cfg1 = cfg_for(k, 1, 1, 1);
+            for j in cols {
+                let col: Vec<u8> = (0..k as usize).map(|m| a2[m * tt + j]).collect();
+                let e1 = SourceBlockEncoder::new(0, &cfg1, &col);
+                let r1 = e1.repair_packets(0, 4);
+                for i in 0..4 { if r1[i].data()[0] != reps[i].data()[j] { bad.push(format!("byte column {j} of repair packet {i} is not the one-byte encoding of that column")); } }
+                // decoding: the same losses at size T and at size 1
+                let mut d1 = SourceBlockDecoder::new(0, &cfg1, k as u64);
+                let mut pk1: Vec<EncodingPacket> = e1.source_packets().into_iter().filter(|p| !l2.contains(&p.payload_id().encoding_symbol_id())).collect();
+                pk1.extend(r1.iter().take(l2.len()).cloned());
+                let o1 = d1.decode(pk1);
+                let mut d = SourceBlockDecoder::new(0, &cfg, k as u64 * tt as u64);
+                let mut pk: Vec<EncodingPacket> = enc.source_packets().into_iter().filter(|p| !l2.contains(&p.payload_id().encoding_symbol_id())).collect();
+                pk.extend(reps.iter().take(l2.len()).cloned());
+                let o = d.decode(pk);
+                match (o, o1) {
+                    (Some(b), Some(b1)) => { if b != a2 { bad.push("decoded block differs from the data".to_string()); } if (0..k as usize).any(|m| b[m * tt + j] != b1[m]) { bad.push(format!("byte column {j} of the decoded block differs from that column decoded alone")); } }
+                    (None, None) => {}
+                    _ => bad.push(format!("decoding succeeds at one symbol size and not at the other (column {j})")),
+                }
+            }
+            bad
+        });
+        match r {
+            Ok(bad) => { let mut bad = bad; bad.dedup(); for b in bad.iter().take(3) { rec.impl_violation(format!("symbol-size independence violated at K={k} T={t}, lost source symbols {:?}: {b}", lost)); } }
+            Err(_) => rec.impl_violation(format!("encoder/decoder panics at K={k} T={t}")),
+        }
+        rec.count("linear_wide_symbols");
+    }
+}
+
 // exact Clopper–Pearson lower confidence bound for a binomial proportion: the p with
 // P(X >= k | n, p) = alpha (0 when k = 0)
 pub fn cp_lower(k: u64, n: u64, alpha: f64) -> f64 {
@@ -822,15 +991,29 @@ pub fn overhead(rec: &mut Recorder, rng: &mut Rng, thorough: bool) {
             let n = if h == 0 { trials } else { trials / 2 } / if k > 150 { 4 } else { 1 };
             for it in 0..n {
                 // uniformly random (K+h)-subset of the 2^24 encoding symbols
+                // … or (every other trial) a mix: a uniformly chosen number of source symbols, the rest repair
+                // symbols from the whole range, delivered in a random order - K of them at once, the extra ones singly
+                let mixed = it % 2 == 1;
                 let mut set = std::collections::BTreeSet::new();
+                if mixed {
+                    let ns = rng.below(k as u64) as usize;
+                    while set.len() < ns { set.insert(rng.below(k as u64) as u32); }
+                    while set.len() < k as usize + h { set.insert(k + (rng.next() % ((1u64 << 24) - k as u64)) as u32); }
+                }
                 while set.len() < k as usize + h { set.insert((rng.next() & 0xFF_FFFF) as u32); }
                 let esis: Vec<u32> = set.into_iter().collect();
-                let pk: Vec<EncodingPacket> = esis.iter().map(|e| if *e < k { src[*e as usize].clone() } else { enc.repair_packets(e - k, 1).remove(0) }).collect();
-                let sparse = it % 2 == 0;
+                let mut pk: Vec<EncodingPacket> = esis.iter().map(|e| if *e < k { src[*e as usize].clone() } else { enc.repair_packets(e - k, 1).remove(0) }).collect();
+                if mixed { rng.shuffle(&mut pk); rec.count("overhead_mixed_incremental"); }
+                let sparse = (it / 2) % 2 == 0;
                 let r = guarded(move || {
                     let mut dec = SourceBlockDecoder::new(0, &cfg, k as u64);
                     dec.set_sparse_threshold(if sparse { 0 } else { 1 << 30 });
-                    dec.decode(pk)
+                    if mixed {
+                        let rest = pk.split_off(k as usize);
+                        let mut out = dec.decode(pk);
+                        for p in rest { let o = dec.decode(vec![p]); if o.is_some() { out = o; } }
+                        out
+                    } else { dec.decode(pk) }
                 });
                 total[h] += 1;
                 let ok = match &r {
